@@ -14,6 +14,7 @@ import (
 	"time"
 
 	"github.com/anishathalye/porcupine"
+	"github.com/yaricom/goNEAT/v4/neat"
 	"github.com/yaricom/goNEAT/v4/neat/genetics"
 )
 
@@ -128,7 +129,14 @@ func c16ColdStarts(c *Ctx) {
 			innov: &innovMonitor{links: map[int64]linkKey{}, roles: map[int]byte{}},
 		}
 		c.Count("cold_starts", 1)
+		if k%2 == 1 {
+			// the debug log level is an option setting like any other: its extra code runs inside the reproduction goroutines
+			// (the loggers themselves stay silent)
+			neat.LogLevel = neat.LogLevelDebug
+			c.Count("cold_starts.at_debug_log_level", 1)
+		}
 		runScenario(c, sc, mon)
+		neat.LogLevel = neat.LogLevelError
 	}
 }
 
@@ -143,6 +151,7 @@ type parMonitor struct {
 	events  []int64
 	storing map[int]bool
 	dcount  int64
+	sorted, sortedCopy []*genetics.Species
 }
 
 func (m *parMonitor) record(kind int, species int) {
@@ -192,6 +201,13 @@ func (m *parMonitor) Constructed(c *Ctx, sc *EvoScenario, pop *genetics.Populati
 			m.mu.Unlock()
 		}
 	}
+	genetics.VerifHooks.Prepared = func(p *genetics.Population, sorted []*genetics.Species, generation int) {
+		// the list of species every reproduction goroutine is handed: shared, read-only
+		m.mu.Lock()
+		m.sorted = sorted
+		m.sortedCopy = append([]*genetics.Species{}, sorted...)
+		m.mu.Unlock()
+	}
 	genetics.VerifHooks.Yield = func(site string) {
 		if m.delay {
 			atomic.AddInt64(&m.dcount, 1)
@@ -229,6 +245,14 @@ func (m *parMonitor) AfterEpoch(c *Ctx, sc *EvoScenario, gen int, pop *genetics.
 		return false
 	}
 	m.mu.Lock()
+	for i := range m.sortedCopy {
+		if i >= len(m.sorted) || m.sorted[i] != m.sortedCopy[i] {
+			m.mu.Unlock()
+			c.Violate("shared-species-list-rewritten", map[string]interface{}{"scenario": sc.brief(), "generation": gen, "position": i},
+				"the sorted list of species shared by all reproduction goroutines was rewritten while the species reproduced (position %d)", i)
+			return false
+		}
+	}
 	storing := len(m.storing)
 	h := newHasher()
 	for _, e := range m.events {
